@@ -164,6 +164,8 @@ def main(argv=None):
           f"outcomes={st.get('outcomes', {})} faults_fired={st.get('faults_fired', {})} "
           f"distinct={len(merged['signatures'])} nontrivial={len(merged['nontrivial_signatures'])} "
           f"wall={time.time() - t0:.1f}s")
+    for n in merged.get("notes", [])[:8]:
+        print("note:", n[:300])
     if merged["harness_errors"]:
         for e in merged["harness_errors"][:5]:
             print("HARNESS-ERROR:", e[:1500])
